@@ -241,6 +241,10 @@ class Primitive(Trimesh):
         # apply the new matrix
         self.primitive.transform = updated
 
+        # an overridden center of mass moves with the primitive
+        if "center_mass" in self._data:
+            self.center_mass = tf.transform_points([self._data["center_mass"]], matrix)[0]
+
         return self
 
     def _create_mesh(self):
